@@ -420,6 +420,22 @@ pub fn gen_wellformed(t: &mut Tape, cfg: &ProgCfg) -> (Vec<MStmt>, GenInfo) {
     for (_, e) in outer_ext.iter().filter(|(p, _)| *p == nb) {
         prog.push(MStmt { labels: vec![], kind: MKind::External(e.clone()) });
     }
+    // a label may also sit on an `.external` line inside a block: it names the current location, i.e. the
+    // address of the statement that follows, so the first label of that statement can move up
+    let mut open = false;
+    for i in 0..prog.len().saturating_sub(1) {
+        match prog[i].kind {
+            MKind::Orig(_) => open = true,
+            MKind::End => open = false,
+            MKind::External(_) if open && prog[i].labels.is_empty() && !prog[i + 1].labels.is_empty() && !matches!(prog[i + 1].kind, MKind::Orig(_)) => {
+                if t.chance(1, 3) {
+                    let l = prog[i + 1].labels.remove(0);
+                    prog[i].labels.push(l);
+                }
+            }
+            _ => {}
+        }
+    }
     (prog, info)
 }
 
